@@ -203,6 +203,21 @@ Definition trans_ok_b (n : Z) (b : list (list Z)) (a : Z) (b' : list (list Z)) :
     end
   else board_eqb b' b.
 
+(* the observation is a plain copy of two state fields: Observation(board, action_mask) *)
+Definition observe (s : state) : list (list Z) * list bool := (board s, amask s).
+
+(* Rules layer of a whole step: slide every line of the chosen direction; when that changes the board,
+   put the drawn tile on the drawn cell; the mask of the new board is its set of legal directions;
+   the reward is the sum of the tiles created by merging; the episode ends when no direction is legal *)
+Definition rules_mask (n : Z) (b : list (list Z)) : list bool := map (legal_b n b) [0; 1; 2; 3].
+Definition rules_step (n : Z) (s : state) (a idx v : Z) : state * tstep :=
+  let b' := if legal_b n (board s) a then add_cell n (spec_move n (board s) a) idx v else board s in
+  let r := if legal_b n (board s) a then spec_reward n (board s) a else 0 in
+  let m' := rules_mask n b' in
+  (mkS b' m' (score s + r) (step_count s + 1), cond_done 1 (negb (existsb id m')) [r]).
+Definition rules_init (n idx v : Z) : state * tstep :=
+  let b := add_cell n (zeros_board n) idx v in (mkS b (rules_mask n b) 0 0, restart 1).
+
 (* ================= wire format ================= *)
 Definition dec_state (n : Z) (l : list Z) : state * list Z :=
   let (b, l) := take_grid n n l in
@@ -213,6 +228,8 @@ Definition dec_state (n : Z) (l : list Z) : state * list Z :=
 Definition enc_state (s : state) : list Z :=
   concat (board s) ++ unbools (amask s) ++ [score s; step_count s].
 
+Definition enc_obs (o : list (list Z) * list bool) : list Z := concat (fst o) ++ unbools (snd o).
+
 (* the draw is recovered from the successor board: first cell that differs from the moved board *)
 Fixpoint first_diff (i : Z) (a b : list Z) : Z * Z :=
   match a, b with
@@ -221,8 +238,9 @@ Fixpoint first_diff (i : Z) (a b : list Z) : Z * Z :=
   end.
 
 (* in: n, state, action, successor board
-   out: 1, board', mask', score', step_count', step_type, reward, discount, mask[a], valid_draw, idx, v   (or 0 = out of fuel) *)
-Definition g2048_step_io (l : list Z) : list Z :=
+   out: 1, board', mask', score', step_count', step_type, reward, discount, mask[a], valid_draw, idx, v,
+        observed board, observed mask   (or 0 = out of fuel) *)
+Definition game_2048_step_io (l : list Z) : list Z :=
   let (n, l) := take1 l in let (s, l) := dec_state n l in let (a, l) := take1 l in
   let (succ, _) := take_grid n n l in
   match move n (board s) a with
@@ -233,38 +251,51 @@ Definition g2048_step_io (l : list Z) : list Z :=
       match step n s a idx v with
       | None => [0]
       | Some (s', t) => 1 :: enc_state s' ++ enc_ts t ++ [b2z lg; b2z (negb lg || valid_draw n mb idx v); idx; v]
+                          ++ enc_obs (observe s')
       end
   end.
-(* @export g2048_step_io *)
+(* @export game_2048_step_io *)
 
-(* in: n, reset board -> 1, reset state, timestep, valid_draw, idx, v *)
-Definition g2048_init_io (l : list Z) : list Z :=
+(* the Rules layer on the same wire format: in n, state, action, successor board
+   out: board', mask', score', step_count', step_type, reward, discount, legal_b, valid_draw, idx, v *)
+Definition game_2048_rules_io (l : list Z) : list Z :=
+  let (n, l) := take1 l in let (s, l) := dec_state n l in let (a, l) := take1 l in
+  let (succ, _) := take_grid n n l in
+  let mb := spec_move n (board s) a in
+  let (idx, v) := first_diff 0 (concat mb) (concat succ) in
+  let lg := legal_b n (board s) a in
+  let (s', t) := rules_step n s a idx v in
+  enc_state s' ++ enc_ts t ++ [b2z lg; b2z (negb lg || valid_draw n mb idx v); idx; v].
+(* @export game_2048_rules_io *)
+
+(* in: n, reset board -> 1, reset state, timestep, valid_draw, idx, v, observation *)
+Definition game_2048_init_io (l : list Z) : list Z :=
   let (n, l) := take1 l in let (succ, _) := take_grid n n l in
   let (idx, v) := first_diff 0 (concat (zeros_board n)) (concat succ) in
   match init n idx v with
   | None => [0]
-  | Some (s, t) => 1 :: enc_state s ++ enc_ts t ++ [b2z (valid_draw n (zeros_board n) idx v); idx; v]
+  | Some (s, t) => 1 :: enc_state s ++ enc_ts t ++ [b2z (valid_draw n (zeros_board n) idx v); idx; v] ++ enc_obs (observe s)
   end.
-(* @export g2048_init_io *)
+(* @export game_2048_init_io *)
 
 (* verified checkers on an IMPLEMENTATION state: in n, board, mask ->
    [wf && nonneg; mask = legal_b for the 4 actions; mask[a] = (spec_move changes the board) for the 4 actions;
     total; phi_total; number of tiles] *)
-Definition g2048_check_io (l : list Z) : list Z :=
+Definition game_2048_check_io (l : list Z) : list Z :=
   let (n, l) := take1 l in let (b, l) := take_grid n n l in let (m, _) := taken 4 l in
   [ b2z (wf_b n b && nonneg_b b);
     b2z (list_eqb Bool.eqb (bools m) (map (legal_b n b) [0; 1; 2; 3]));
     b2z (list_eqb Bool.eqb (bools m) (map (fun a => negb (board_eqb (spec_move n b a) b)) [0; 1; 2; 3]));
     total b; phi_total b; count_tiles b ].
-(* @export g2048_check_io *)
+(* @export game_2048_check_io *)
 
 (* verified transition checker on an IMPLEMENTATION transition: in n, board, action, successor board ->
    [trans_ok_b; legal_b; spec_reward] *)
-Definition g2048_trans_io (l : list Z) : list Z :=
+Definition game_2048_trans_io (l : list Z) : list Z :=
   let (n, l) := take1 l in let (b, l) := take_grid n n l in let (a, l) := take1 l in
   let (b', _) := take_grid n n l in
   [ b2z (trans_ok_b n b a b'); b2z (legal_b n b a); spec_reward n b a ].
-(* @export g2048_trans_io *)
+(* @export game_2048_trans_io *)
 
 (* row sweep: in L, k, k rows of length L -> per row:
    ok, loop row (L), loop reward, can_ok, can, slide row (L), row_reward, slide-changes-the-row *)
@@ -275,8 +306,8 @@ Definition row_out (r : list Z) : list Z :=
    end)
   ++ (match can_move_left_row r with Some c => [1; b2z c] | None => [0; 0] end)
   ++ slide r ++ [row_reward r; b2z (negb (row_eqb (slide r) r))].
-Definition g2048_rows_io (l : list Z) : list Z :=
+Definition game_2048_rows_io (l : list Z) : list Z :=
   let (len, l) := take1 l in let (k, l) := take1 l in
   let (rows, _) := take_grid k len l in
   concat (map row_out rows).
-(* @export g2048_rows_io *)
+(* @export game_2048_rows_io *)
